@@ -45,14 +45,14 @@ def instance(seed):
         elif rm == "lt":
             qm = m * rng.uniform(0.55, 0.9)
             if rng.random() < 0.4:      # far below: the reference lies beyond other quarks' thresholds
-                qm = max(1.05, m * math.exp(-rng.uniform(math.log(2.0), math.log(100.0))))
+                qm = max(1.05, m * math.exp(-rng.uniform(math.log(2.0), math.log(400.0 if q == 3 else 100.0))))  # the top may be quoted below the charm
         else:
             qm = m * rng.uniform(1.1, 1.8)
             if rng.random() < 0.4:      # far above
-                qm = min(2000.0, m * math.exp(rng.uniform(math.log(2.0), math.log(100.0))))
+                qm = min(2000.0, m * math.exp(rng.uniform(math.log(2.0), math.log(1000.0))))
         quarks.append({"q": q, "rm": rm, "rq": "lt" if qm < qref else "gt"})
         refs.append(ReferenceRunning([m, qm]))
-    rec = {"seed": seed, "nfref": nfref, "quarks": quarks, "outcome": "ok", "sorted": True, "resid": [99, 99, 99], "patch": [0, 0, 0],
+    rec = {"seed": seed, "nfref": nfref, "quarks": quarks, "outcome": "ok", "sorted": True, "resid": [99, 99, 99], "comp": [99, 99, 99], "patch": [0, 0, 0],
            "order": order[0], "method": meth.value}
     info = CouplingsInfo(alphas=alphas, alphaem=0.00781, ref=(qref, nfref))
     # half of the instances at unit ratios, the others with matching ratios and xif away from one
@@ -87,4 +87,22 @@ def instance(seed):
         except Exception as ex:  # noqa: BLE001
             rec["resid"][j] = -1
             rec["msg"] = "fixed-point evaluation failed: " + type(ex).__name__
+            continue
+        if abs(nf_from - nf_to) >= 2:
+            # the path crosses two or more matching scales: the running mass composes along it - stopping in the
+            # patch after the first crossing (at the geometric mean of the first two matching scales) and going on
+            # from there gives the same mass as the direct evolution
+            ms = (np.array(sc.atlas.walls)[1:-1] * np.array(ratios)).tolist()   # as evolve places its steps
+            up = nf_to > nf_from
+            nf_mid = nf_from + (1 if up else -1)
+            a, b = (ms[nf_from - 3], ms[nf_from - 2]) if up else (ms[nf_from - 4], ms[nf_from - 5])
+            s_mid = math.sqrt(a * b)
+            try:
+                mid = msbar_masses.evolve(m2_ref, q2m, sc, ratios, xif2, s_mid, nf_ref=nf_from, nf_to=nf_mid)
+                two = msbar_masses.evolve(mid, s_mid, sc, ratios, xif2, res[j], nf_ref=nf_mid, nf_to=nf_to)
+                rel = abs(two - back) / abs(back)
+                rec["comp"][j] = 99 if rel == 0 else int(math.floor(-math.log10(rel)))
+            except Exception as ex:  # noqa: BLE001
+                rec["comp"][j] = -1
+                rec["msg"] = "composition along the path failed: " + type(ex).__name__
     return rec
